@@ -555,6 +555,20 @@ func (e *Engine) GenOp(r *core.Rand, m *Model, hostile bool) Op {
 			pExist = 0
 		}
 		op := Op{Kind: "create", Store: store, Id: e.pickFreeId(r, m, Emps, pExist), V: e.genEmpV(r, m, hostile), Nil: r.Bool()}
+		if m.Upgrade && isChild(store) && r.P(0.25) {
+			// over an existing entity that has no data in this child store (explicit nulls: the payload replaces the parent part)
+			for _, id := range e.existing(m, Emps) {
+				if _, has := m.Ents[Emps][id].Child[store]; !has && r.P(0.5) {
+					op.Id, op.Nil = id, false
+					break
+				}
+			}
+		}
+		if ex, ok := m.Ents[Emps][op.Id]; ok && m.Upgrade && isChild(store) {
+			if _, has := ex.Child[store]; !has {
+				op.Nil = false
+			}
+		}
 		if hostile && r.P(0.02) {
 			op.Id = ""
 		}
